@@ -52,6 +52,20 @@ func main() {
 		os.Exit(2)
 	}
 	mode := os.Args[1]
+	if mode == "netprobe" {
+		// one net-twin case in a process of its own (a race report ends this process, not the worker's)
+		var tc hx.NetTwinCase
+		if len(os.Args) < 3 || json.Unmarshal([]byte(os.Args[2]), &tc) != nil {
+			os.Exit(2)
+		}
+		fails := hx.RunNetTwin(tc)
+		b, _ := json.Marshal(fails)
+		fmt.Println(string(b))
+		if len(fails) > 0 {
+			os.Exit(3)
+		}
+		return
+	}
 	fs := flag.NewFlagSet(mode, flag.ExitOnError)
 	prop := fs.String("prop", "", "property id")
 	tier := fs.String("tier", "quick", "quick|thorough|search")
